@@ -21,13 +21,13 @@ def plan(tier):
     pl = Plan()
     pl.level = "other"
     pl.units = [U("G.getscript", "contracts.bodies", "h_getscript", (), setup=("contracts.client", "setup_typestate"))]
-    shapes = [(), ("plain",), ("active",), ("plain", "active"), ("active", "plain"), ("plain", "plain")]
-    if tier == "thorough":
-        shapes += [("active", "plain", "plain"), ("plain", "active", "plain"), ("plain", "plain", "plain")]
+    import itertools
+    maxlen = 3 if tier == "quick" else 4
+    shapes = [sh for n in range(0, maxlen + 1) for sh in itertools.product(("plain", "active"), repeat=n)]
     for sh in shapes:
         pl.units.append(U("L.listing.%s" % ("-".join(sh) or "empty"), "contracts.listing", "h_listscripts", (sh,),
                           setup=("contracts.listing", "setup"), native_ok=True, sample_models=True))
-    for k in ((0, 1, 2, 3) if tier == "quick" else (0, 1, 2, 3, 4)):
+    for k in (range(0, 5) if tier == "quick" else range(0, 8)):
         pl.units.append(U("G.literal-body.%d-lines" % k, "contracts.listing", "h_getscript", (k,),
                           setup=("contracts.listing", "setup"), native_ok=True, sample_models=True))
     pl.bounded = [bounded_get, bounded_list]
@@ -41,11 +41,11 @@ def plan(tier):
         "Deductive: getscript returns '\\n'.join(decode(l) for l in content.splitlines()) for the WHOLE content (no line "
         "dropped or added), None iff the reply was NO -- an equality of uninterpreted-function terms that a change dropping, "
         "filtering or re-ordering lines breaks. L -- the REAL listscripts / __send_command / __read_response / __read_line (reader "
-        "loops replaced by their C05 summaries) on listings of up to 3 quoted names, each plain or marked ACTIVE, the names "
+        "loops replaced by their C05 summaries) on every listing of up to 3 (thorough: 4) quoted names, each plain or marked ACTIVE (several ACTIVE marks included), the names "
         "SYMBOLIC (any non-empty text without quote, backslash, CR, LF): the names returned are exactly the names sent, the "
         "active one is the marked one, and the reader stops at the end of the reply (the line pattern's backtracking "
         "`\\s*(.+)` is decided on the structure of the shaped line, pyvc/shape.py). G -- the REAL getscript on a literal body "
-        "of k arbitrary lines (symbolic; a line may be `OK`, `NO (X) \"y\"`, `{5}`, anything without CR/LF): every line comes "
+        "of k <= 4 (thorough: 7) arbitrary lines (symbolic; a line may be `OK`, `NO (X) \"y\"`, `{5}`, anything without CR/LF): every line comes "
         "back intact and in order and the reader stops at the end of the reply -- the block is read by count, never "
         "classified. Bounded (labelled bounded, exhaustive over the pools): 16 protocol-look-alike "
         "bodies x encodings and 11 names x {quoted, literal} x {active, not} x {alone, with another script} served by the "
